@@ -112,8 +112,29 @@ class C19(KSpec):
             "history signatures")
 
 
+class C06(Spec):
+    warm_runs = 25
+    rule = ("one run = one seeded history on 1-2 BoundingVolumeHierarchy objects over real UrdfTransformManagers loaded "
+            "from generated URDF text (chains and branching trees, sphere/box/cylinder geometry) plus free colliders "
+            "(capsule, cone, ellipsoid, mesh, ...) with seeded asymmetric whitelists: set_joint / add_transform changes, "
+            "update_collider_poses (also duplicated), then broad-phase queries and detect / detect_any, each judged "
+            "against the transform manager, brute-force AABB pairs and all-pairs narrow phase on fresh twins; "
+            "non-trivial = at least one joint/pose change followed by a refresh and a judged query; distinct = distinct "
+            "history signatures (topology, geometry kinds, op sequence)")
+    assumptions = [
+        "the real pytransform3d transform manager defines 'current transform'",
+        "the narrow phase (jolt, libccd, MPR unanimous and clearer than 1e-3*L) is the yardstick for 'colliding'; "
+        "pairs inside the grazing band or without unanimity are don't-care",
+        "queries issued while a change is pending (before update_collider_poses) are executed but not judged",
+        "a clean batch is evidence, not proof (seeded sampling of histories)",
+    ]
+    budgets = {"quick": {"wall": 75, "max_runs": 10 ** 9, "chunk": 10},
+               "thorough": {"wall": 1200, "max_runs": 10 ** 9, "chunk": 10}}
+
+
 _SPECS = {
     "C03": (C03, "K"),
+    "C06": (C06, "R"),
     "C05": (C05, "T"),
     "C14": (C14, "K"),
     "C19": (C19, "K"),
